@@ -17,6 +17,9 @@ NameShapes ==
     empty    |-> <<>>,
     colon    |-> <<<<65>>, <<58>>, <<32>>, <<66>>>>,                        \* "A: B"
     nonascii |-> <<<<195, 169>>, <<240, 159, 152, 128>>, <<122>>>>,          \* "e-acute, emoji, z"
+    notword  |-> <<<<78>>, <<79>>, <<84>>>>,                                   \* "NOT": a NAME, not the qualifier of an annotation row
+    trail    |-> <<<<65>>, <<32>>>>,                                            \* "A " (ends in a blank)
+    obsname  |-> <<<<111>>, <<98>>, <<115>>, <<111>>, <<108>>, <<101>>, <<116>>, <<101>>, <<32>>, <<65>>>>,   \* "obsolete A": a NAME, not a flag
     b255     |-> Rep(<<97>>, 255),
     b256     |-> Rep(<<97>>, 256),
     b254p2   |-> Rep(<<97>>, 254) \o <<<<195, 169>>>>,                      \* 256 bytes, cut inside a 2-byte char
@@ -36,10 +39,11 @@ Default ==
 FamA == {[Default EXCEPT !.fam = "A", !.tshape = ts, !.gshape = gs, !.dshape = gs, !.v = v, !.perm = pm] :
            ts \in Shapes, gs \in Shapes, v \in 1..3, pm \in BOOLEAN}
 FamB == {[Default EXCEPT !.fam = "B", !.extra = ex, !.pat = pt, !.flags = fl, !.v = v, !.perm = pm] :
-           ex \in SUBSET {2, 9999999}, pt \in 1..3, fl \in {<<FALSE, 0>>, <<TRUE, 0>>, <<TRUE, 118>>, <<FALSE, 1>>},
+           ex \in (SUBSET {2, 9999999}) \cup {{65536}, {2, 131072}, {4194304, 8388608}},      \* incl. ids that are exact powers of two
+           pt \in 1..3, fl \in {<<FALSE, 0>>, <<TRUE, 0>>, <<TRUE, 118>>, <<FALSE, 1>>},
            v \in 1..3, pm \in BOOLEAN}
 FamC == {[Default EXCEPT !.fam = "C", !.gsel = g, !.osel = o, !.rsel = r, !.version = ver, !.v = v, !.perm = pm] :
-           g \in 0..2, o \in 0..2, r \in 0..1, ver \in {<<0, 0, 0>>, <<2024, 12, 31>>, <<65535, 255, 255>>},
+           g \in 0..3, o \in 0..2, r \in 0..1, ver \in {<<0, 0, 0>>, <<2024, 12, 31>>, <<65535, 255, 255>>},
            v \in 1..3, pm \in BOOLEAN}
 
 FamD == {q \in FamA : q.tshape = q.gshape}    \* the diagonal of family A (quick tier)
@@ -60,6 +64,8 @@ Ont(p) ==
                 [] p.gsel = 1 -> <<[id |-> 7, name |-> NameShapes[p.gshape], terms |-> Sorted({118, mx})]>>
                 [] p.gsel = 2 -> <<[id |-> 7, name |-> NameShapes[p.gshape], terms |-> <<mx>>]>>
                                  \o <<[id |-> 2000000000, name |-> NameShapes["nonascii"], terms |-> <<>>]>>
+                [] p.gsel = 3 -> <<[id |-> 7, name |-> NameShapes[p.gshape], terms |-> <<mx>>],          \* two genes with the SAME symbol
+                                   [id |-> 8, name |-> NameShapes[p.gshape], terms |-> <<118>>]>>
       omim == CASE p.osel = 0 -> <<>>
                 [] p.osel = 1 -> <<[id |-> 7, name |-> NameShapes[p.dshape], terms |-> <<mx>>]>>
                 [] p.osel = 2 -> <<[id |-> 7, name |-> NameShapes[p.dshape], terms |-> <<1>>]>>
